@@ -330,6 +330,12 @@ Definition spec_process (sy : system) (o : json) (now : Z) : json :=
       end
   end.
 
+(** Matcher nondeterminism (D10/D12, dependency): a repeated variable that may
+    land on structured data, or "?"-strings in the data, make core.Match's
+    answer depend on Go's map order.  Such reads are not compared. *)
+Definition all_facts (sy : system) : list json :=
+  flat_map (fun kv => map snd (st_facts (l_state (snd kv)))) sy.
+
 Definition kf_of (sy : system) (o : json) : list string :=
   let op := jfS "op" o in
   if String.eqb op "query" then
@@ -342,17 +348,23 @@ Definition kf_of (sy : system) (o : json) : list string :=
     ((match extract_terms p with [] => ["D8"] | _ => [] end) ++
      (if has_propvar p then ["D9"] else []))%list
   else if String.eqb op "event" || String.eqb op "process" then
-    ((if rules_have_propvar sy then ["D6"] else []) ++
+    (* patterns inside the conditions of the stored rules (D8/D9 apply to them too) *)
+    let cps := if String.eqb op "process" then
+                 flat_map (fun f => match jget "rule" f with
+                                    | Some r => match jget "condition" r with
+                                                | Some q => query_patterns (jsize q) q
+                                                | None => []
+                                                end
+                                    | None => []
+                                    end) (all_facts sy)
+               else [] in
+    ((if existsb (fun p => match extract_terms p with [] => true | _ => false end) cps then ["D8"] else []) ++
+     (if existsb has_propvar cps then ["D9"] else []) ++
+     (if rules_have_propvar sy then ["D6"] else []) ++
      (if rules_have_direct_when sy then ["D30"] else []) ++
      (if shared_rule_ids sy then ["D37"] else []) ++
      (if event_risky (jnorm (jget_d "event" o)) then ["D7"] else []))%list
   else [].
-
-(** Matcher nondeterminism (D10/D12, dependency): a repeated variable that may
-    land on structured data, or "?"-strings in the data, make core.Match's
-    answer depend on Go's map order.  Such reads are not compared. *)
-Definition all_facts (sy : system) : list json :=
-  flat_map (fun kv => map snd (st_facts (l_state (snd kv)))) sy.
 
 Definition op_risky (sy : system) (o : json) : bool :=
   let op := jfS "op" o in
